@@ -270,7 +270,14 @@ def execute_here(prop, trace, known=None, keep_log=False):
         sys.settrace(None)
         res = {"status": "violation", "oracle": prop.ID + ".liveness", "detail": str(e)}
     except RecursionError as e:
-        res = {"status": "violation", "oracle": prop.ID + ".liveness", "detail": "RecursionError " + str(e)[:200]}
+        # where the stack overflowed decides: inside rdflib it is a liveness violation, inside the harness a harness error
+        frames = traceback.extract_tb(e.__traceback__)
+        deepest = [f.filename for f in frames[-40:]]
+        tail = " <- ".join(f"{os.path.basename(f.filename)}:{f.lineno}:{f.name}" for f in frames[-4:])
+        if sum(1 for f in deepest if f.startswith(REPO)) >= len(deepest) // 2:
+            res = {"status": "violation", "oracle": prop.ID + ".liveness", "detail": "RecursionError " + str(e)[:200] + " at " + tail}
+        else:
+            res = {"status": "harness_error", "detail": "RecursionError in the harness: " + tail}
     except Exception as e:  # classify: raised through rdflib code -> violation, else harness error
         tb = e.__traceback__
         text = "".join(traceback.format_exception(type(e), e, tb))[-3000:]
